@@ -56,7 +56,14 @@ def java_subset(case):
                     ms.append(m)
             n["members"] = ms
         f["nodes"] = [n for n in f["nodes"] if not (n["k"] == "struct" and n["name"] in bad_structs) and n["k"] != "const"]
-    # struct removal may orphan field types: drop structs that reference removed ones (none by construction)
+    # the Java backend copies include strings verbatim into `extends …`: use bare names
+    dirs = sorted({idl._dir_of(f["path"]) for f in c["files"]} - {"."})
+    for f in c["files"]:
+        for n in f["nodes"]:
+            if n["k"] == "include":
+                n["path"] = os.path.basename(n["path"])
+    c["incdirs"] = sorted(set(c.get("incdirs", [])) | set(dirs))
+    c.pop("fsmodel", None)
     return c
 
 
@@ -90,7 +97,15 @@ def run(ctx, prop):
                 continue
             failed = []
             wl = case.get("langs")
+            if case.get("java_only"):
+                jb = e3.build(case, os.path.join(tmp, "wj"), ctx.idlc["debug"], valuations=1, seed=ctx.seed)
+                for u in jb["units"]:
+                    hist["units"] += 1
+                    if u["rc"] != 0:
+                        failed.append({"config": "javac", "unit": u["unit"], "stderr": u["stderr"][-500:]})
             for ci, (cc, cxx, typed) in enumerate(configs):
+                if case.get("java_only"):
+                    break
                 if origin == "witness" and ci > 0:
                     break
                 langs = tuple(wl) if wl else ("c", "cpp", "rust")
